@@ -476,15 +476,22 @@ fn serial_server(svc: Vec<Svc>, data: &[u8], expect: usize, ncalls: usize) -> Op
                     let abort = Box::pin(async move {
                         let _ = abort_rx.await;
                     });
-                    matches!(srv.serve_until(service, abort).await, Ok(tokio_modbus::server::Terminated::Aborted))
+                    match srv.serve_until(service, abort).await {
+                        Ok(tokio_modbus::server::Terminated::Aborted) => "ok",
+                        Ok(tokio_modbus::server::Terminated::Finished) => "finished",
+                        Err(_) => "failed",
+                    }
                 } else {
-                    let _ = srv.serve_forever(service).await;
-                    false
+                    // returns only when the request loop fails
+                    match srv.serve_forever(service).await {
+                        Ok(()) => "finished",
+                        Err(_) => "failed",
+                    }
                 }
             }
             Err(_) => {
                 let _ = ready_tx.send(false);
-                false
+                "bad"
             }
         }
     });
@@ -525,16 +532,28 @@ fn serial_server(svc: Vec<Svc>, data: &[u8], expect: usize, ncalls: usize) -> Op
         }
         std::thread::sleep(Duration::from_millis(5));
     }
-    // `serve_until` must end as `Aborted` when its signal fires
-    let ended_ok = if until {
+    // `serve_until` must end as `Aborted` when its signal fires – unless the request loop has
+    // failed before, which ends both entry points with that error; `serve_forever` is given a
+    // moment to return on its own and is aborted otherwise
+    let ended = if until {
         let _ = abort_tx.send(());
         runtime.block_on(async { tokio::time::timeout(Duration::from_millis(3000), server).await })
             .ok()
             .and_then(Result::ok)
-            .unwrap_or(false)
+            .unwrap_or("bad")
     } else {
-        server.abort();
-        true
+        for _ in 0..30 {
+            if server.is_finished() {
+                break;
+            }
+            std::thread::sleep(Duration::from_millis(5));
+        }
+        if server.is_finished() {
+            runtime.block_on(server).unwrap_or("bad")
+        } else {
+            server.abort();
+            "ok"
+        }
     };
     runtime.shutdown_timeout(Duration::from_millis(200));
     let c = calls.lock().unwrap().get(&key).cloned().unwrap_or_default();
@@ -542,7 +561,7 @@ fn serial_server(svc: Vec<Svc>, data: &[u8], expect: usize, ncalls: usize) -> Op
         "calls={} out={} peer={}",
         if c.is_empty() { "-".to_string() } else { c.join(",") },
         hex(&got),
-        if ended_ok { "ok" } else { "bad" }
+        ended
     ))
 }
 
